@@ -360,7 +360,7 @@ class StmtMixin:
     # ---------------------------------------------------------------- loops
     def loop_spec(self, node) -> LoopSpec:
         o = self.loop_ord.get(id(node))
-        return self.contract.loops.get(o, LoopSpec()), o
+        return getattr(self, "cur_loops", self.contract.loops).get(o, LoopSpec()), o
 
     def heap_mods(self, stmts):
         """Heap locations possibly written by `stmts` (syntactic, via contracts)."""
